@@ -794,3 +794,47 @@ Section LinkPull.
         split; [exact Hin|]. rewrite Hok. simpl. split; [reflexivity|exact Hmin].
   Qed.
 End LinkPull.
+
+(* ================================================================== *)
+(** * Part 4: transform between two layouts of one structured grid *)
+Section Relayout.
+  Open Scope nat_scope.
+
+  Lemma flip_idx_invol dims : forall inc c,
+    in_range c dims -> length inc = length dims -> flip_idx dims inc (flip_idx dims inc c) = c.
+  Proof.
+    induction dims as [|n dr IH]; intros inc c Hc Hl; inversion Hc as [|i n' ir r' Hi Hr]; subst; [destruct inc; reflexivity|].
+    destruct inc as [|b br]; [discriminate|]. simpl in Hl. simpl. rewrite IH by (assumption || lia).
+    destruct b; f_equal; lia.
+  Qed.
+
+  (** going to layout [l] and back to the canonical index is the identity: [idx_of] picks the index
+      that denotes the given cell *)
+  Theorem same_cell dims l c :
+    in_range c dims -> length (l_inc l) = length dims -> can_of dims l (idx_of dims l c) = c.
+  Proof.
+    intros Hc Hl. unfold can_of, idx_of. destruct (l_rev l); [rewrite rev_involutive|]; apply flip_idx_invol; assumption.
+  Qed.
+
+  (** the delivered array has the consumer's shape; its element (and mask bit) at consumer index
+      [ic] is the stored one at the producer index of the same cell *)
+  Theorem relayout_spec r a k :
+    a_shape a = k :: lshape (r_dims r) (r_src r) ->
+    a_shape (relayout (Some r) a) = k :: lshape (r_dims r) (r_dst r)
+    /\ forall j ic, j < k -> in_range ic (lshape (r_dims r) (r_dst r)) ->
+         let ip := idx_of (r_dims r) (r_src r) (can_of (r_dims r) (r_dst r) ic) in
+         aget (relayout (Some r) a) (j :: ic) = aget a (j :: ip)
+         /\ mget (relayout (Some r) a) (j :: ic) = mget a (j :: ip).
+  Proof.
+    intros Hs. unfold relayout. rewrite Hs. split; [reflexivity|].
+    intros j ic Hj Hic; try (intros ip); cbv zeta.
+    assert (in_range (j :: ic) (k :: lshape (r_dims r) (r_dst r))) as Hr by (constructor; assumption).
+    split.
+    - unfold aget. simpl a_shape. simpl a_data. rewrite Hs. unfold relay_list.
+      rewrite nth_map_seq by (apply flatC_lt; exact Hr).
+      rewrite unflatC_flatC by exact Hr. reflexivity.
+    - unfold mget. simpl a_shape. simpl a_mask. rewrite Hs. destruct (a_mask a) as [m|]; [|reflexivity]. cbn [option_map]. f_equal.
+      unfold relay_list. rewrite nth_map_seq by (apply flatC_lt; exact Hr).
+      rewrite unflatC_flatC by exact Hr. reflexivity.
+  Qed.
+End Relayout.
